@@ -150,13 +150,19 @@ CLAIMED = {
         "characters and escape pairs + none/@lang/^^<datatype>; layout = blanks before/between tokens, blanks or nothing before the dot, blanks "
         "or a comment after it). Theorem: every rendered line parses to exactly the statement's triple (kinds, IRIs, labels, xsd:string / "
         "rdf:langString / the datatype), no exception, not an error line; a document yields its triples in order with zero error lines - for "
-        "all lexical forms, unbounded. Tie: Nt.parseLine vs NtTriplesYielder on every generated line. Search: line rendered from a statement, "
+        "all lexical forms, unbounded. The tokenizer (seven methods with `while` loops), tune_token / tune_prop, parse_literal, remove_corners and "
+        "decide_literal_type are REGENERATED from the Python source on every run and proved equal to the model's functions for every input "
+        "(Props/GenStrNtTok, GenStrTune2, GenStrCorners, GenStrLiteral), so the reader assembled from the regenerated functions is Nt.parseLine "
+        "for every line and reads every valid statement as its triple (Props/GenNtReader); on lines where the model has no answer the regenerated "
+        "loop exhausts any fuel. Tie: Nt.parseLine vs NtTriplesYielder on every generated line; the translator itself against CPython and the real "
+        "functions (strcheck). Search: line rendered from a statement, "
         "read by the real reader, compared with the statement; exhaustive over all contents of <= 2 (quick) / 3 (thorough) atoms of a 24-atom "
         "adversarial alphabet x 12 suffix forms, random beyond; generator cross-checked with rdflib's N-Triples parser.",
-   note="Trusts Lean's kernel, the hand-written model (tied by correspondence), the generator. str.isnumeric is modelled for ASCII digits only; "
+   note="Trusts Lean's kernel, the translator extract_str.py + Base/PyOps.lean (tied by strcheck), the five lines of generator glue of yield_triples "
+        "and the hand-written model (tied by correspondence), the generator. str.isnumeric is modelled for ASCII digits only; "
         "line splitting of the raw string / file is outside the model (covered by the search: U+000C, U+0085, U+2028, U+001D inside literals). "
         "Four defects repaired (see known_findings.json 'fixed').",
-   technique="Lean 4 proof (parser round trip by induction over the lexical form and the layout) + differential correspondence + exhaustive small-scope search",
+   technique="Lean 4 proof (parser round trip by induction over the lexical form and the layout; regenerated index-based tokenizer refined to the suffix-based model) + differential correspondence + exhaustive small-scope search",
    design="5/C06"),
  "C18": dict(
    text="Proof: the Shaper with its three memoised stages (instance dictionary, profile, shapes keyed by their threshold) as a state "
@@ -191,7 +197,11 @@ CLAIMED = {
         "integers; the token stream is cut into physical lines at ARBITRARY token boundaries, with arbitrary runs of blanks, trailing comments, "
         "empty and comment lines. Theorem: the reader yields exactly the triples of the groups (node kinds, expanded IRIs, labels, datatypes), in "
         "order, raises nothing, and returns to the waiting-for-subject state - unbounded in groups, lines and content (1900 lines of agent-written, "
-        "kernel-checked lemmas). Tie: Ttl.readLines vs the implementation on every generated document, exception classes included. Search: "
+        "kernel-checked lemmas). Regenerated from the Python source on every run and proved equal to the model's functions for every input: "
+        "_clean_line, _remove_comments_if_needed, _next_line_token with its quote / blank scans (counting backslashes backwards = skipping escape "
+        "pairs forwards), _parse_elem, _parse_cornered_element, _expand_prefixed_datatype_if_needed, tune_subj / tune_prop / tune_token "
+        "(Props/GenStrTtlScan, GenStrTtlTok, GenStrTune2); the directive bookkeeping and the state machine across tokens stay hand-modelled. "
+        "Tie: Ttl.readLines vs the implementation on every generated document, exception classes included; the translator against CPython. Search: "
         "layout generator + every line-break placement of small documents, compared with the abstract triples and with rdflib; 14 families of "
         "documents outside the dialect must raise or agree with rdflib.",
    note="Trusts Lean's kernel, the hand-written model (tied by correspondence), urljoin as the parameter `resolve` with the stated hypotheses, float() "
@@ -204,7 +214,9 @@ CLAIMED = {
         "(no raw tab); the multi-source reader yields the triples of its sources one after the other (any reader) and, for N-Triples files, "
         "exactly the triples of all statements for every partition into files; every count and class size computed from the concatenation is "
         "invariant under any other partition / order of the same statements (permutation invariance); with C06 and C07 the three hand-written "
-        "readers are proved against one term model. Tie: Tsv.parseLine vs TsvNtTriplesYielder line by line; pipeline on the reference channel. "
+        "readers are proved against one term model; the TSV and N-Triples readers assembled from functions regenerated from the Python source "
+        "are Tsv.parseLine / Nt.parseLine for every line (Props/GenTsvReader, GenNtReader). Tie: Tsv.parseLine vs TsvNtTriplesYielder line by line; "
+        "pipeline on the reference channel. "
         "Search: each graph delivered through 30 channels (7 formats as file and raw string, rdflib Graph, file:// URL, lists of 2-4 files with "
         "an arbitrary partition, gz / xz, zip with flat and nested members, lists of zips) and compared with the raw N-Triples run.",
    note="Trusts Lean's kernel, harness. rdflib's parsers, decompression and URL fetching are byte transport outside the model (partial): covered by "
